@@ -50,6 +50,9 @@ func (ex *Ex) freshResults(name string, sig *types.Signature) (Val, []SV) {
 		v := ex.FreshVar("r$"+name, ex.W.SortOf(t))
 		vals = append(vals, Val{T: v})
 		svs = append(svs, SV{T: v, Ty: SType{G: t}})
+		if f := ex.ifaceTypeFact(v, t); f != nil {
+			ex.pendingFacts = append(ex.pendingFacts, f)
+		}
 	}
 	switch len(vals) {
 	case 0:
@@ -107,7 +110,15 @@ func (ex *Ex) callFunction(fr *Frame, st *State, ins ssa.Instruction, callee *ss
 	name := w.funcName(callee)
 	ex.note("unmodelled call (result havoced, assumed not to panic nor write tracked memory): " + name)
 	res, _ := ex.freshResults(shortFn(name), callee.Signature)
+	ex.flushFacts(st)
 	k(st, res)
+}
+
+func (ex *Ex) flushFacts(st *State) {
+	for _, f := range ex.pendingFacts {
+		st.Assume(f)
+	}
+	ex.pendingFacts = nil
 }
 
 func shortFn(s string) string {
@@ -232,6 +243,7 @@ func (ex *Ex) callByContract(fr *Frame, st *State, ins ssa.Instruction, callee *
 		}
 	}
 	res, svs := ex.freshResults(shortFn(cname), callee.Signature)
+	ex.flushFacts(st)
 	envPost := ex.newEnv(cf, st)
 	envPost.pkgName = ctr.PkgName
 	envPost.results = svs
@@ -384,6 +396,7 @@ func (ex *Ex) invoke(fr *Frame, st *State, ins ssa.Instruction, cc *ssa.CallComm
 	}
 	ex.note("unmodelled interface method call (result havoced): " + w.shortType(cc.Value.Type()) + "." + m.Name())
 	res, _ := ex.freshResults(m.Name(), sig)
+	ex.flushFacts(st)
 	k(st, res)
 }
 
@@ -422,6 +435,7 @@ func (ex *Ex) invokeByContract(fr *Frame, st *State, ins ssa.Instruction, ctr *C
 		ex.oblige(fr, st, fmt.Sprintf("%s#invoke.%d.%s.pre.%d", ex.topPrefix(fr), ord, mangle(ctr.Name), rq.Ord), "callpre", ex.safetyProps(fr), "precondition of "+name+": "+rq.Text, t, posOf(ins))
 	}
 	res, svs := ex.freshResults(ctr.Name, sig)
+	ex.flushFacts(st)
 	env.results = svs
 	env.resNames = resultNames(sig)
 	for _, en := range ctr.Ensures {
@@ -444,6 +458,7 @@ func (ex *Ex) dynamicCall(fr *Frame, st *State, ins ssa.Instruction, cc *ssa.Cal
 	}
 	ex.note("unmodelled call through function value (result havoced): " + cc.Value.Type().String())
 	res, _ := ex.freshResults("dyn", sig)
+	ex.flushFacts(st)
 	k(st, res)
 }
 
